@@ -128,7 +128,15 @@ class VnmrJ:
         return ("f" if c["float"] else "i", 4, True, True)
 
     def file_header(self, c):
-        return struct.pack(">llllllhhl", c["nblocks"], 1, c["np"], 4, 4 * c["np"], 4 * c["np"] + 28, 0, 0x08 if c["float"] else 0, 1)
+        # nblocks, ntraces, np, ebytes, tbytes, bbytes, vers_id, status, nbheaders — bbytes is redundant (ntraces*tbytes + 28)
+        return struct.pack(">llllllhhl", c["nblocks"], 1, c["np"], 4, 4 * c["np"], 4 * c["np"] + 28 + c.get("bbytes_delta", 0),
+                           0, 0x08 if c["float"] else 0, 1)
+
+    declared_follows_header = True
+
+    def declared(self, c):
+        """bytes of the data section as the header states them: nblocks * bbytes"""
+        return c["nblocks"] * (4 * c["np"] + 28 + c.get("bbytes_delta", 0))
 
     def write(self, c, d, body):
         p = os.path.join(d, "syn.fid")
@@ -157,6 +165,9 @@ class VnmrJ:
         return v, ["t2", "t1"], [t, np.arange(0, c["nblocks"], 1.0)]
 
     def perturbed(self, c, change):
+        if change[0] == 2:
+            # the redundant bytes-per-block field alone, one sample more / less (only observable with several blocks)
+            return dict(c, bbytes_delta=4 * change[1]) if c["nblocks"] >= 2 else None
         if change[0] > 1:
             return None
         c2 = dict(c)
@@ -168,8 +179,9 @@ class VnmrJ:
         c2 = self.perturbed(c, change)
         fp = os.path.join(path, "fid")
         body = bytearray(open(fp, "rb").read())
-        body[:32] = struct.pack(">llllllhhl", c2["nblocks"], 1, c2["np"], 4, 4 * c2["np"], 4 * c2["np"] + 28, 0, 0x08 if c["float"] else 0, 1)
-        open(fp, "wb").write(bytes(body))
+        body[:32] = self.file_header(c2)
+        with open(fp, "wb") as f:
+            f.write(bytes(body))
         return c2
 
     def data_file(self, path):
